@@ -306,7 +306,10 @@ def guards_and_closure(prog, chk):
 
     refs_b = [bb for (bb, t, c) in aa.call_sites(lambda c: c.path.split("::")[-1] == "add_style") if "url(#d-arrow)" in (_lit_arg(t) or "")]
     defs_b = [bb for (bb, t, c) in aa.call_sites(lambda c: c.path.split("::")[-1] == "add_defs") if 'id="d-arrow"' in (_lit_arg(t) or "")]
-    if not refs_b or len(defs_b) != 1:
+    in_loop = [x for x in defs_b if R.loop_containing(aa, x) is not None]
+    if in_loop:
+        chk.bad("A16.url-id-closure", "append_arrow_styles:flag", aa.where(in_loop[0]), "the arrow marker definition is emitted inside a loop: once per pass in which its condition holds, so two classes that both reference url(#d-arrow) give two definitions with the same id")
+    elif not refs_b or len(defs_b) != 1:
         chk.undecided("A16.url-id-closure", "append_arrow_styles:flag", aa.where(), f"the arrow marker's rules / definition are not emitted by add_style / add_defs calls with literal text in append_arrow_styles ({len(refs_b)} referencing rule(s), {len(defs_b)} definition(s) found): not decided")
     else:
         rets = [x for x in aa.reachable if aa.term(x)["k"] == "ret"]
